@@ -58,6 +58,23 @@ struct TrackedAlloc {
 	friend void swap(TrackedAlloc &a, TrackedAlloc &b) { std::swap(a.st, b.st); }
 };
 
+// the same allocator with the optional reallocate() member (as frg::slab_allocator has): realloc semantics - the old block is
+// released by the call when the block moves, and this one always moves
+struct TrackedAllocR : TrackedAlloc {
+	using TrackedAlloc::TrackedAlloc;
+	void *reallocate(void *p, size_t n) {
+		count("alloc_reallocate_calls");
+		if(!p) return allocate(n);
+		auto it = st->live.find(p);
+		size_t old = it == st->live.end() ? 0 : it->second;
+		void *q = allocate(n);
+		if(q && old) memcpy(q, p, old < n ? old : n);
+		release(p, false, 0);
+		return q;
+	}
+	friend void swap(TrackedAllocR &a, TrackedAllocR &b) { std::swap(a.st, b.st); }
+};
+
 inline void expect_no_blocks(AllocState &st, const char *when) {
 	if(!st.live.empty()) {
 		lifetime_violation("alloc:leak:" + st.owner, strf("%s: %zu block(s) still allocated %s", st.owner.c_str(), st.live.size(), when));
@@ -148,6 +165,17 @@ struct Pod {
 	bool operator==(const Pod &o) const = default;
 };
 static_assert(std::is_trivially_copyable_v<Pod>);
+// trivially copyable, but value-initialisation is NOT all-zero bytes (default member initialisers): a container that zero-fills new
+// elements instead of constructing them is observable
+struct PodNZ {
+	int value = -7; unsigned generation = 1;
+	PodNZ() = default;
+	explicit PodNZ(int v) : value(v) {}
+	PodNZ(int a, int b) : value(a * 1000 + b) {}
+	int get() const { return generation == 1 ? value : 0x7BAD0000 + (int)generation; }
+	bool operator==(const PodNZ &o) const = default;
+};
+static_assert(std::is_trivially_copyable_v<PodNZ>);
 
 // ---------------------------------------------------------------- GuardedBuf
 // Input bytes placed so that buf[len] (and, under ASan, buf[-1]) is unaddressable.
